@@ -69,6 +69,39 @@ def renderSrcs (xs : List (String × Int)) : String :=
 def greaseOnWire (spec : List SpecShare) (wire : List (Nat × Nat)) : Nat :=
   ((spec.zip wire).find? fun (s, _) => Grease.isGrease s.group).map (·.2.1) |>.getD 0x0a0a
 
+/-- `name:offset:length,…` (offset -1 = not found in the served stream). -/
+def parseOffs (s : String) : Option (List (String × Int × Nat)) :=
+  (listOf s).mapM fun t =>
+    match t.splitOn ":" with
+    | [a, b, c] => do
+      let b ← b.toInt?
+      let c ← c.toNat?
+      pure (a, b, c)
+    | _ => none
+
+def materialName : Material → Option String
+  | .random => some "random" | .sessionId => some "sid" | .grease => some "grease"
+  | .ecdhe i => some s!"k{i}" | .mlkem i => some s!"m{i}" | .sessionId0 => none
+
+def isEcdheRead : Material → Bool
+  | .ecdhe _ => true
+  | _ => false
+
+/-- walk the model's reads along the served stream: a located secret must start where the model says — up to
+one probe byte (`MaybeReadByte`) in front of each ECDH key read when the probes share the stream — and have
+the model's length; reads whose secret is not observable (the discarded first session id, keys that are
+not retained) advance the window. Returns the window for the total number of bytes served. -/
+def walkReads (probes : Bool) (offs : List (String × Int × Nat)) : List (Material × Nat) → Nat → Nat → Except String (Nat × Nat)
+  | [], lo, hi => .ok (lo, hi)
+  | (m, n) :: rest, lo, hi =>
+    let extra := if probes && isEcdheRead m then 1 else 0
+    match (materialName m).bind fun nm => (offs.find? (·.1 == nm)) with
+    | some (nm, off, len) =>
+      if len != n then .error s!"{nm}: {len} bytes, model {n}"
+      else if off < (lo : Int) || off > ((hi + extra : Nat) : Int) then .error s!"{nm} at offset {off}, model {lo}..{hi + extra}"
+      else walkReads probes offs rest (off.toNat + n) (off.toNat + n)
+    | none => walkReads probes offs rest (lo + n) (hi + n + extra)
+
 structure Built where
   spec : List SpecShare
   wire : List (Nat × Nat)
@@ -77,6 +110,8 @@ structure Built where
   sid : Nat
   reads : List Nat
   srcs : List (String × Int)
+  offs : List (String × Int × Nat) := []
+  total : Nat := 0
 
 def parseBuilt (c : Case) : Option Built := do
   let spec ← parsePairs (c.output.getD "spec" "-")
@@ -84,8 +119,10 @@ def parseBuilt (c : Case) : Option Built := do
   let sid ← c.output.nat "sid"
   let reads ← c.output.nats "reads"
   let srcs ← parseSrcs (c.output.getD "srcs" "-")
+  let offs ← parseOffs (c.output.getD "offs" "-")
   pure { spec := spec.map fun (g, n) => { group := g, dataLen := n }, wire := wire, keys := c.output.getD "keys" "?",
-         matched := listOf (c.output.getD "match" "-"), sid := sid, reads := reads, srcs := srcs }
+         matched := listOf (c.output.getD "match" "-"), sid := sid, reads := reads, srcs := srcs,
+         offs := offs, total := (c.output.nat "total").getD 0 }
 
 /-- monitors on a built hello (independent of the model): sizes, matching private keys, session id, reads. -/
 def monitors (quic : Bool) (b : Built) (suffix : String) : Option String :=
@@ -104,6 +141,8 @@ def monitors (quic : Bool) (b : Built) (suffix : String) : Option String :=
   else if quic && b.sid != 0 then some s!"quic-hello-with-non-empty-session-id{suffix}"
   else if !quic && b.sid != 32 then some s!"session-id-not-32-bytes{suffix}"
   else if idxs.any (· < 0) || dup idxs then some s!"material-not-from-a-read-of-its-own{suffix}"
+  else if b.offs.any (·.2.1 < 0) then
+    some s!"secret-not-among-the-bytes-Config.Rand-served:{",".intercalate ((b.offs.filter (·.2.1 < 0)).map (·.1))}{suffix}"
   else none
 
 def shapeOf (spec : List SpecShare) : String :=
@@ -136,7 +175,8 @@ def shares (c : Case) : Verdict :=
   match parseBuilt c with
   | none => .bad "unparsable c18_shares line"
   | some b =>
-    let tag := s!"{src},{via},{shapeOf b.spec}"
+    let rd := c.input.getD "rd" "full"
+    let tag := s!"{src},{via},{shapeOf b.spec}{if rd == "full" then "" else "," ++ rd}"
     match monitors quic b "" with
     | some clause => .propFail tag clause
     | none =>
@@ -151,9 +191,16 @@ def shares (c : Case) : Verdict :=
       else if renderKeys out.keys != b.keys then .diff tag s!"keys={renderKeys out.keys}"
       else if em != b.matched then .diff tag s!"match={",".intercalate em}"
       else if out.sessionIdLen != b.sid then .diff tag s!"sid={out.sessionIdLen}"
-      else if out.reads.map (·.2) != b.reads then .diff tag s!"reads={natsStr (out.reads.map (·.2))}"
-      else if es != b.srcs then .diff tag s!"srcs={renderSrcs es}"
-      else .ok tag
+      else if rd == "full" && out.reads.map (·.2) != b.reads then .diff tag s!"reads={natsStr (out.reads.map (·.2))}"
+      else if rd == "full" && es != b.srcs then .diff tag s!"srcs={renderSrcs es}"
+      else if c.output.get "offs" |>.isNone then .ok tag
+      else
+        -- every secret lies in the served stream where the model's reads put it, and the number of bytes
+        -- consumed is the model's, however the reader chunked the stream
+        match walkReads (rd != "full") b.offs out.reads 0 0 with
+        | .error m => .diff tag s!"stream: {m}"
+        | .ok (lo, hi) =>
+          if b.total < lo || b.total > hi then .diff tag s!"{b.total} bytes consumed, model {lo}..{hi}" else .ok tag
 
 def clientOriginated (herr : String) : Bool :=
   herr.startsWith "err:" || herr.startsWith "alert:" || herr.startsWith "prepare:" || herr == "timeout"
